@@ -28,7 +28,7 @@ func init() {
 		Phases: func(tier string, seed int64) []Phase {
 			return []Phase{{Name: "upgrades", Race: true, Run: c13Run}}
 		},
-		MinObserved: []string{"sessions_checked", "tls_records_classified", "post_upgrade_requests_compared", "sessions_open_and_idle_at_stop", "upgrades_served_by_the_default_route", "requests_answered_after_think_time", "handshakes_failed_or_abandoned_by_other_sessions", "sessions_with_an_answered_request_before_the_upgrade", "rendezvous_inside_the_tunnel_satisfied", "high_volume_sessions_after_upgrade", "plaintext_requests_sent_in_the_same_write_as_starttls", "sessions_whose_first_record_is_not_labelled_3_1", "tunnel_requests_checked_against_the_upgrade_handlers_return", "last_requests_sent_together_with_close_notify"},
+		MinObserved: []string{"sessions_checked", "tls_records_classified", "post_upgrade_requests_compared", "sessions_open_and_idle_at_stop", "upgrades_served_by_the_default_route", "requests_answered_after_think_time", "handshakes_failed_or_abandoned_by_other_sessions", "sessions_with_an_answered_request_before_the_upgrade", "rendezvous_inside_the_tunnel_satisfied", "high_volume_sessions_after_upgrade", "plaintext_requests_sent_in_the_same_write_as_starttls", "sessions_whose_first_record_is_not_labelled_3_1", "tunnel_requests_checked_against_the_upgrade_handlers_return", "last_requests_sent_together_with_close_notify", "upgrades_after_a_refused_starttls_request", "upgrades_of_connections_opened_seconds_earlier"},
 	})
 }
 
@@ -238,6 +238,7 @@ func c13Timed(c *Ctx, pki *PKI, tm c13Timing, par int, ti int) {
 	rc := &Recorder{}
 	// every third timing lets the DEFAULT route perform the upgrade (a mux without an explicit StartTLS route)
 	viaDefault := ti%3 == 2
+	var refuseFirst sync.Map // connection id -> true
 	var upMu sync.Mutex
 	upEnter, upExit := map[int]int64{}, map[int]int64{}
 	upgrade := func(w *gldap.ResponseWriter, r *gldap.Request) {
@@ -250,6 +251,11 @@ func c13Timed(c *Ctx, pki *PKI, tm c13Timing, par int, ti int) {
 			upMu.Unlock()
 		}()
 		time.Sleep(time.Duration(tm.D1) * time.Millisecond)
+		if _, marked := refuseFirst.LoadAndDelete(r.ConnectionID()); marked {
+			// this connection's first StartTLS request is refused (no upgrade); the client may ask again
+			w.Write(r.NewExtendedResponse(gldap.WithResponseCode(gldap.ResultUnavailable)))
+			return
+		}
 		resp := r.NewExtendedResponse(gldap.WithResponseCode(gldap.ResultSuccess))
 		resp.SetResponseName(gldap.ExtendedOperationStartTLS)
 		if err := w.Write(resp); err != nil {
@@ -305,6 +311,9 @@ func c13Timed(c *Ctx, pki *PKI, tm c13Timing, par int, ti int) {
 				h(w, r)
 				if strings.HasPrefix(name, "cn=linger") {
 					time.Sleep(300 * time.Millisecond)
+				}
+				if name == "cn=refuse-my-first-starttls" {
+					refuseFirst.Store(r.ConnectionID(), true)
 				}
 			}
 		}
@@ -407,6 +416,77 @@ func c13Timed(c *Ctx, pki *PKI, tm c13Timing, par int, ti int) {
 			}
 			c.Count("plaintext_requests_sent_in_the_same_write_as_starttls", 1)
 		}()
+	}
+	// a conforming client whose first StartTLS request is refused and whose second one, on the same connection, is
+	// accepted; and (once per run) a client that upgrades a connection it opened several seconds earlier
+	conformingLate := func(refusedFirst bool, idle time.Duration) {
+		defer wg.Done()
+		target := tap.Addr()
+		if refusedFirst {
+			target = srv.Addr // (not through the wiretap: its oracle takes the FIRST StartTLS request for the upgrade)
+		}
+		cn, err := net.Dial("tcp", target)
+		if err != nil {
+			return
+		}
+		defer cn.Close()
+		cl := wrapClient(cn)
+		what := fmt.Sprintf("a connection that had been open for %s", idle)
+		if refusedFirst {
+			what = "a second StartTLS request after a refused one"
+			cl.Send(sber.Message(1, sber.BindRequest(3, []byte("cn=refuse-my-first-starttls"), []byte("p")), nil).Encode())
+			if _, err := cl.ReadMsg(c13Wait); err != nil {
+				return
+			}
+			cl.Send(sber.Message(2, sber.ExtendedRequest([]byte(sber.OIDStartTLS), nil, false), nil).Encode())
+			m, err := cl.ReadMsg(c13Wait)
+			if err != nil {
+				return
+			}
+			if res, rerr := sber.AsResult(m.Op); rerr != nil || res.Code == 0 {
+				return // the handler did not refuse (harness precondition)
+			}
+		} else {
+			cl.Send(sber.Message(1, sber.BindRequest(3, []byte("cn=x"), []byte("p")), nil).Encode())
+			if _, err := cl.ReadMsg(c13Wait); err != nil {
+				return
+			}
+			time.Sleep(idle)
+		}
+		det := map[string]any{"timing": tm, "session": what}
+		cl.Send(sber.Message(3, sber.ExtendedRequest([]byte(sber.OIDStartTLS), nil, false), nil).Encode())
+		m, err := cl.ReadMsg(c13Wait)
+		if err != nil || m.ID != 3 {
+			c.Violate("a conforming StartTLS session failed", fmt.Sprintf("%s: no StartTLS response: %v", what, err), det)
+			return
+		}
+		tc := tls.Client(cn, pki.ClientPlain)
+		cn.SetDeadline(time.Now().Add(c13Wait))
+		if err := tc.Handshake(); err != nil {
+			c.Violate("a conforming StartTLS session failed", fmt.Sprintf("%s: the handshake after the success response failed: %v", what, err), det)
+			return
+		}
+		cn.SetDeadline(time.Time{})
+		tcl := wrapClient(tc)
+		tcl.Send(sber.Message(4, sber.BindRequest(3, []byte("cn=x"), []byte("p")), nil).Encode())
+		if _, err := tcl.ReadMsg(c13Wait); err != nil {
+			c.Violate("request inside the tunnel failed", fmt.Sprintf("%s: %v", what, err), det)
+			return
+		}
+		if refusedFirst {
+			c.Count("upgrades_after_a_refused_starttls_request", 1)
+		} else {
+			c.Count("upgrades_of_connections_opened_seconds_earlier", 1)
+		}
+		tc.Close()
+	}
+	if !c.MuteViolations && !viaDefault {
+		wg.Add(1)
+		go conformingLate(true, 0)
+		if ti == 1 {
+			wg.Add(1)
+			go conformingLate(false, time.Duration(c.N(5600, 12000))*time.Millisecond)
+		}
 	}
 	// a TLS 1.2 client whose last request inside the tunnel and whose close_notify leave in one segment (what a client
 	// library does on "unbind and close"): the request is served like any other
